@@ -86,6 +86,17 @@ claimed.update({
    note="Recursion is switched on through the verif hook (enableRecurse). mkdir -p bursts, directories moved across the tree boundary and Remove of an inner directory of a recursive watch are not judged (the property excludes or does not mention them).",
    technique="explicit-state model checking: BFS on the real code with kernel-side coverage ground truth"),
 })
+E3 = "E3 kqueue back end transplanted onto a simulated kqueue (engine/kqsim, kharness) + BFS / schedule enumeration"
+claimed.update({
+ "C17": dict(engine=E3, design="5 (C17), 2 (E3)",
+   text="backend_kqueue.go, shared.go, fsnotify.go and system_bsd.go are copied from the working tree at check time, instrumented like the inotify back end and compiled on Linux against a simulated kqueue (descriptor table with lowest-free allocation, knotes, OR-ed pending fflags, activation order). (a) BFS (depth 4 quick / 7 thorough) over Add/Remove/Close and filesystem steps on a directory holding files, a sub-directory, a symlink, a FIFO and an unreadable file: in every state the simulator's descriptor table must equal the back end's wd table, every open descriptor must still be warranted (its file not deleted/renamed, it or its directory still user-watched), WatchList must be exactly the user's paths, nothing may be open after Close, and descriptors and all five tables must be empty once everything was removed. (b) Every schedule up to preemption bound 1 (thorough: 2) of Close racing Remove/Add/Close and/or a filesystem change being handled by the reader, with the same end-state oracle. The simulation is bound to reality by replaying all 66 testdata scripts of the working tree: the 41 that run on FreeBSD agree with their recorded freebsd/kqueue/default expectation (count and any disagreement are in the evidence).",
+   note="Fidelity of the simulated kernel is bounded by the recorded expectations; NOTE rules: create/symlink/mkfifo -> WRITE on the directory, mkdir/rmdir -> WRITE|LINK (+DELETE on the removed directory), unlink -> WRITE + DELETE, rename -> WRITE on both directories, RENAME on the vnode, DELETE on an overwritten target, write -> WRITE|EXTEND, truncate/chmod -> ATTRIB; hard links left out.",
+   technique="explicit-state BFS plus preemption-bounded schedule enumeration of the transplanted back end on a simulated kernel validated by replaying recorded BSD expectations"),
+ "C18": dict(engine=E3, design="5 (C18), 2 (E3)",
+   text="BFS (depth 5 quick / 9 thorough; the symlinked-watch-path search reaches its fixed point) over create/truncate/write/chmod/remove/rename within, into, out of, onto and across two watched directories, mkdir/rmdir, changes in an unwatched sub-directory, rm -r of the watched directory, with a pre-existing FIFO present, quiescence after every step. Oracle per step, written from the property and independent of the back end: Create exactly once per new entry, never for entries present at Add (incl. the FIFO) and never again on later changes; then Write/Chmod/Remove/Rename for announced entries under the user's spelling (also through a symlinked watch path); overwrite-by-rename = Remove + Rename + Create; remove-and-recreate = Remove then Create; removing the directory = Remove for it and each announced entry; compared as multisets per step (as the recorded expectations are). Same script-replay validation as C17.",
+   note="Symbolic links, FIFOs and unreadable files as the *subject* of an operation are not judged (recorded as known-broken / unwatchable on kqueue); bursts are not judged because kqueue merges notes per vnode.",
+   technique="explicit-state BFS of the transplanted back end on a simulated kernel validated by replaying recorded BSD expectations, against an independent per-operation reference"),
+})
 NA_REASON = "check not built yet (work in progress; DESIGN.md section 5 gives the planned decision procedure)"
 
 def main():
@@ -108,6 +119,8 @@ def main():
          "kind_free_text": "explicit-state BFS over operation sequences: successors by replay on fresh kernel objects, canonical-state hashing, reference model fed by seam syscalls and raw kernel reads"},
         {"name": "E2-events", "path": "harness/checks_events.go harness/seq.go harness/ideal.go", "serves_properties": ["C01", "C02", "C03", "C08", "C10", "C11", "C14"],
          "kind_free_text": "BFS over histories x batchings, exhaustive name-shape / buffer-boundary / injected-record enumeration, differential runs over configurations; reference model over the raw kernel stream"},
+        {"name": "E3", "path": "engine/kqsim kharness cmd/vgen (genKq)", "serves_properties": ["C17", "C18"],
+         "kind_free_text": "transplant of the kqueue back end onto a simulated kqueue kernel driven by real filesystem operations; validated by replaying the repository's testdata scripts against their recorded BSD expectations"},
         {"name": "E1", "path": "engine/vinst engine/vsched engine/vsys harness", "serves_properties": sorted(k for k, v in claimed.items() if v["engine"].startswith("E1")),
          "kind_free_text": "source-to-source instrumentation of the working tree + cooperative scheduler + preemption-bounded DFS (iterative context bounding), 16 worker processes"},
       ],
